@@ -81,3 +81,22 @@ Proof.
   split; [apply skipn_add|]. split; [|repeat split].
   rewrite <- skipn_add. rewrite Hnil by (right; exact I). rewrite Nat2Z.inj_add. reflexivity.
 Qed.
+
+(** [EthernetChannel.key] is the tuple of ALL dataclass fields, each exactly
+    once (in any order), and the receive table is keyed by it and the
+    transfer number: the model's [key_eqb] compares exactly these. *)
+Theorem tie_key :
+  BtpuBudget.chan_nfields = 4%nat
+  /\ length BtpuBudget.key_fields = BtpuBudget.chan_nfields
+  /\ forallb (fun i => existsb (Nat.eqb i) BtpuBudget.key_fields) (seq 0 BtpuBudget.chan_nfields) = true
+  /\ BtpuBudget.rx_key_is_conv_key_and_xfer_num = true
+  /\ (forall a b x y, key_eqb (a, x) (b, y) = true <->
+        c_if a = c_if b /\ c_peer a = c_peer b /\ c_local a = c_local b /\ c_vlan a = c_vlan b /\ x = y).
+Proof.
+  split; [reflexivity|]. split; [reflexivity|]. split; [reflexivity|]. split; [reflexivity|].
+  intros a b x y. unfold key_eqb, chan_eqb. cbn [fst snd]. rewrite !andb_true_iff, !N.eqb_eq. split.
+  - intros [[[[H1 H2] H3] H4] H5]. repeat split; try assumption.
+    destruct (c_vlan a), (c_vlan b); cbn in H4; try discriminate; [apply N.eqb_eq in H4; congruence|reflexivity].
+  - intros (H1 & H2 & H3 & H4 & H5). repeat split; try assumption. rewrite H4.
+    destruct (c_vlan b); cbn; [apply N.eqb_refl|reflexivity].
+Qed.
